@@ -371,29 +371,31 @@ def classify_le(a, b, v):
 
 def classify_unop(op, a, v, r):
     if op == 'abs' and isinstance(r, Fraction): return None, 'abs-asymmetric-bounds'
-    if op == 'neg' and isinstance(r, tuple) and r[1]: return None, 'negzero-neg'
+    # F29 exactly: -(+0) = -0 from a format without a negative zero
+    if op == 'neg' and r == ('z', True) and v == ('z', False) and not a[4][3]: return None, 'negzero-neg'
     return None, op + '-other'
 
 def classify_binop(op, a, b, x, y, r, rd=None):
-    if op == 'mul' and isinstance(r, tuple) and r[1]: return None, 'negzero-mul'
+    # F29 exactly: a -0 product of operands neither of whose formats has a negative zero
+    if op == 'mul' and r == ('z', True) and not a[4][3] and not b[4][3]: return None, 'negzero-mul'
     if op == 'mul' and rd is not None and 'nan' in (rd[2], rd[3]): return None, 'mul-zero-bound-times-inf'
     return None, op + '-other'
 
 PER_SHAPE = 2
 
-# shape of a violation -> id of a listed finding (known_findings.json).  Only F10 is listed today; a shape
-# not in this table is reported with 'finding': None (an unlisted violation).
+# shape of a violation -> id of a listed finding (known_findings.json).  F10, F28, F30-F33 are repaired in /repo
+# (their shapes are reported untagged if they ever come back); F29 is open: `__neg__` copies `has_neg_zero` and
+# `__mul__` takes the disjunction, although exactly -(+0) = -0 and (-2)*(+0) = -0.
 FINDING_OF_SHAPE = {
-    'le-skips-precision-when-exp-unbounded': 'F10',
-    'round-identity-via-le-exp-unbounded': 'F10',
-    'prog-le-skips-precision-when-exp-unbounded': 'F10',
-    'elim_round-deletes-effective-rounding-exp-unbounded-target': 'F10',
+    'negzero-neg': 'F29',
+    'negzero-mul': 'F29',
+    'prog-negative-zero-from-exact-neg-or-mul': 'F29',
 }
 
 def viol(rep, shape, what, d):
     """record a Spec violation of the real code; at most PER_SHAPE replay records per shape, all counted"""
     rep.count('violation:' + shape)
-    d = dict(d); d['finding'] = FINDING_OF_SHAPE.get(shape, d.get('finding'))
+    d = dict(d); d['finding'] = FINDING_OF_SHAPE.get(shape)
     if rep.hist['violation:' + shape] <= PER_SHAPE:
         rep.violation(what, d)
 
